@@ -1485,3 +1485,37 @@ pub fn firstchar_program(rng: &mut Rng) -> Program {
     }
     Program { points: vec![x, y, 0x63], ops }
 }
+
+/// A loop over a word of two or three letters followed by a word that overlaps it: (ab)*bc, (aba)+ab, (ab){1,2}b ...
+/// (a match of the whole pattern may start in the middle of what looks like an iteration of the loop)
+pub fn loopword_program(rng: &mut Rng) -> Program {
+    let letters = [0x61u32, 0x62, 0x63];
+    let word = |rng: &mut Rng, n: usize| -> Vec<u32> {
+        (0..n)
+            .map(|_| {
+                let k = if rng.chance(1, 4) { 3 } else { 2 };
+                letters[rng.usize(k)]
+            })
+            .collect()
+    };
+    let n1 = 2 + rng.usize(2);
+    let w1 = word(rng, n1);
+    // the tail starts with a suffix of the loop body (overlap), then continues
+    let cut = 1 + rng.usize(w1.len() - 1);
+    let mut w2: Vec<u32> = w1[cut..].to_vec();
+    let n2 = 1 + rng.usize(2);
+    w2.extend(word(rng, n2));
+    let mut ops = vec![Op::Str(w1), Op::Str(w2)];
+    ops.push(match rng.below(5) {
+        0 | 1 => Op::Star(0),
+        2 => Op::Plus(0),
+        3 => Op::Opt(0),
+        _ => Op::SmtLoop(0, 1, 2),
+    });
+    ops.push(Op::Concat(2, 1));
+    if rng.chance(1, 3) {
+        ops.push(Op::Char(0x63));
+        ops.push(Op::Union(3, 4));
+    }
+    Program { points: letters.to_vec(), ops }
+}
